@@ -6,6 +6,8 @@ import (
 	"sort"
 	"strings"
 	"time"
+
+	rt "github.com/uber-go/tally/v4/verifrt"
 )
 
 // SeqStats is the coverage of one seq job.
@@ -16,6 +18,11 @@ type SeqJob struct {
 	Property string
 	Name     string
 	Shards   int
+	// Controlled: the job runs in the instrumented binary and executes every
+	// case under the controlled scheduler with the default (deterministic)
+	// schedule, so that goroutine timing inside the code under test cannot
+	// vary between a run and its replay.
+	Controlled bool
 	// Run enumerates; it must honour ctx.Expired() and report through ctx.
 	Run func(ctx *SeqCtx)
 	// Replay re-executes one recorded case (Violation.Ops) and returns clause/detail.
@@ -239,4 +246,36 @@ func opIndex(alphabet []string, ops []string) []int {
 		out = append(out, found)
 	}
 	return out
+}
+
+// controlledCase runs f as one execution under the controlled scheduler with
+// the default schedule (no exploration) when the binary is instrumented, and
+// directly otherwise. It returns a clause/detail for deadlocks and panics.
+func controlledCase(ticks int, f func()) (string, string) {
+	if !rt.IsControlled() {
+		f()
+		return "", ""
+	}
+	o := rt.Run(rt.Config{Ticks: ticks}, f)
+	switch {
+	case len(o.Panics) > 0:
+		return "panic: " + firstLine(o.Panics[0]), o.Panics[0]
+	case o.Deadlock:
+		return "deadlock", "blocked: " + strings.Join(o.Leaked, ", ")
+	case o.Livelock:
+		return "livelock", ""
+	case o.Horizon:
+		return "horizon", "step horizon exceeded"
+	}
+	return "", ""
+}
+
+func firstLine(s string) string {
+	if i := strings.Index(s, "\n"); i > 0 {
+		s = s[:i]
+	}
+	if i := strings.Index(s, "): "); i > 0 {
+		s = s[i+3:]
+	}
+	return s
 }
